@@ -15,6 +15,7 @@ func init() {
 }
 
 func checkC07(c *Ctx, r *Report) {
+	defer checkGraphMutationSites(c, r, "C07.a")
 	defer checkProcessWideState(c, r, "C07.e")
 	w := c.W
 	r.NotDecided = append(r.NotDecided, "reachability closure of the type graph ('and no others')", "JSON visibility of fields as computed by the struct visitor", "the type-string to schema mapping")
